@@ -32,9 +32,12 @@ import SoyVerif.Lemmas.JsonValue
 
 namespace SoyVerif.Props.C04d
 open SoyVerif SoyVerif.Model SoyVerif.Model.JsGen SoyVerif.Spec.JsSemRef SoyVerif.Spec.JsStmt
-open SoyVerif.Props.C04c (toAst render RunsSc Same walkExpr_renders toJsV EnvRel)
+open SoyVerif.Props.C04c (toAst render RunsSc Same walkExpr_renders toJsV EnvRel Globals GlobalsAre IjRel GlobRel)
 
-variable {ent : Spec.Eval.Binds}
+set_option linter.unusedSectionVars false
+
+section Dev
+variable [Globals] {ent : Spec.Eval.Binds}
 
 
 /-! ## 1. translation -/
@@ -494,7 +497,7 @@ end
 /-! ### one lemma per node kind (the recursive calls are hypotheses) -/
 
 section
-variable (sk : List Bytes → List Bytes) (o : Options)
+variable (sk : List Bytes → List Bytes) (o : Options) [GlobalsAre o]
 variable {ind : Nat} {buf : Bytes} {ae : Autoescape} {sc : Scope}
 
 theorem Runs.getSt {Q : St → Prop} {k : St → M Unit} {ps : List Piece}
@@ -772,7 +775,7 @@ theorem caseJoin_some {sc : Scope} {values : List Expr} {rb : Option (JsStmts ×
           exact ⟨js, rr, rfl, rfl, h.symm⟩
 
 section
-variable (sk : List Bytes → List Bytes) (o : Options)
+variable (sk : List Bytes → List Bytes) (o : Options) [GlobalsAre o]
 variable {ind : Nat} {buf : Bytes} {ae : Autoescape} {sc : Scope}
 
 theorem body_runs (p : Nat) (cmds : CmdList) (st : JsStmts) (sc' : Scope)
@@ -958,7 +961,7 @@ theorem RunsV.cast {α : Type} {P Q : St → Prop} {m : M α} {a a' : α} {ps qs
     (ea : a = a') (e : ps = qs) : RunsV P Q m a' qs := ea ▸ e ▸ h
 
 section
-variable (sk : List Bytes → List Bytes) (o : Options)
+variable (sk : List Bytes → List Bytes) (o : Options) [GlobalsAre o]
 variable {ind : Nat} {buf : Bytes} {ae : Autoescape} {sc : Scope}
 
 theorem RunsV.getBuf {β : Type} {Q : St → Prop} {k : Bytes → M β} {b : β} {ps : List Piece}
@@ -1155,7 +1158,7 @@ theorem phJoin_some {r1 : Option (JsStmts × Scope)} {rest : Scope → Option (J
       exact ⟨a, b, rfl, hb, h.symm⟩
 
 section
-variable (sk : List Bytes → List Bytes) (o : Options)
+variable (sk : List Bytes → List Bytes) (o : Options) [GlobalsAre o]
 variable {ind : Nat} {buf : Bytes} {ae : Autoescape} {sc : Scope}
 
 theorem rawPart_runs (t : Bytes) :
@@ -1214,7 +1217,7 @@ end
 /-! ### the recursion -/
 
 section
-variable (sk : List Bytes → List Bytes) (o : Options) (ae : Autoescape)
+variable (sk : List Bytes → List Bytes) (o : Options) [GlobalsAre o] (ae : Autoescape)
 -- `{msg}` is translated as the generator writes it WITHOUT a message bundle
 variable (ho : o.messages = none)
 include ho
@@ -2272,7 +2275,8 @@ theorem loopRel_keep {buf : Bytes} {sc sc' : Scope} {env : SEnv} {jenv jenv' : J
 theorem envRel_keep {buf : Bytes} {sc sc' : Scope} {env : SEnv} {jenv jenv' : JEnv} {lo : Nat}
     (hrel : EnvRel ent sc env jenv) (hk : Keeps buf lo jenv jenv') (hb : Bounded sc) (hlo : sc.n ≤ lo)
     (hfr : Fresh sc buf) (hst : sc'.stack = sc.stack) : EnvRel ent sc' env jenv' := by
-  refine ⟨?_, loopRel_keep hrel.2.1 hk hb hlo hfr hst, by rw [hk.1]; exact hrel.2.2⟩
+  refine ⟨?_, loopRel_keep hrel.2.1 hk hb hlo hfr hst, by rw [hk.1]; exact hrel.2.2.1, by rw [hk.2.1]; exact hrel.2.2.2.1,
+    hrel.2.2.2.2⟩
   intro k hkij hkd
   have hl : sc'.lookup k = sc.lookup k := by simp [Scope.lookup, hst]
   rw [hl]
@@ -2504,7 +2508,7 @@ theorem sres_bind_ok {r : SRes} {k : JEnv → SRes} {e : JEnv} (h : r.bind k = .
   | unspec => cases h
 
 section
-variable (F : Bytes → List Expr → JVal → JOut) (G : Bytes → JVal → JOut) (fuel : Nat)
+variable (F : Bytes → List Expr → JVal → JOut) (G : Callee) (fuel : Nat)
 
 theorem execStmts_append : ∀ (a b : JsStmts) (env : JEnv),
     execStmts F G fuel (a.append b) env = (execStmts F G fuel a env).bind (execStmts F G fuel b)
@@ -2574,7 +2578,7 @@ end
 /-! ### the induction: one lemma per node kind -/
 
 section
-variable (F : Bytes → List Expr → JVal → JOut) (G : Bytes → JVal → JOut) (R : RefCtx) (ae : Autoescape) (buf : Bytes)
+variable (F : Bytes → List Expr → JVal → JOut) (G : Callee) (R : RefCtx) (ae : Autoescape) (buf : Bytes)
 
 def CmdOk (c : Cmd) : Prop :=
   ∀ (fuel : Nat) (sc : Scope) (r : JsStmts × Scope) (env : SEnv) (jenv jenv' : JEnv) (out : Bytes),
@@ -3785,7 +3789,7 @@ theorem letContent_ok (p : Nat) (name : Bytes) (body : Block) (ih : ∀ buf', Bl
   have hloop : LoopRel (rbv.2.bind name (sc.genname name).1) (env.bind name (.str text)) jenv' := by
     have h1 : LoopRel rbv.2 env jenv' := loopRel_keep hrel.2.1 hkeep hs.2 (Nat.le_refl _) hg.2 a1
     exact loopRel_setTop h1 name _ hname _ (fun _ _ _ _ => rfl) rfl
-  refine ⟨?_, hloop, by rw [hkeep.1]; exact hrel.2.2⟩
+  refine ⟨?_, hloop, by rw [hkeep.1]; exact hrel.2.2.1, by rw [hkeep.2.1]; exact hrel.2.2.2.1, hrel.2.2.2.2⟩
   cases hstk : rbv.2.stack with
   | nil => rw [a1] at hstk; exact absurd hstk hst
   | cons f st =>
@@ -3867,8 +3871,8 @@ theorem toJsKvs_append : ∀ (a b : List (Bytes × Val)) (ja jb : List (Bytes ×
     JSON image of the data `ce.entry`, `name` is a template of the registry, it renders on that data, and `r` is
     the text -/
 def CallRel : Prop :=
-  ∀ (name : Bytes) (ce : Spec.Eval.CallEnv) (jd : List (Bytes × JVal)) (r : JVal),
-    C04c.toJsKvs ce.entry = some jd → G name (.obj jd) = .val r →
+  ∀ (name : Bytes) (ce : Spec.Eval.CallEnv) (jd : List (Bytes × JVal)) (jij : Option (List (Bytes × JVal))) (r : JVal),
+    C04c.toJsKvs ce.entry = some jd → IjRel ce.ij jij → GlobRel ce.globals → G name (.obj jd) jij = .val r →
     ∃ callee out, Registry.lookup R.reg name = some callee ∧ R.call callee ce = .val out ∧ r = .str out
 
 /-- the params of a call: when the statements that fill the content params' buffers complete, only new locals
@@ -3993,7 +3997,7 @@ theorem base_ok {sc : Scope} {env : SEnv} {jenv : JEnv} (hrel : EnvRel R.entry s
     exact ⟨kvs, by simp [refBase, hv, Spec.Eval.Out.bind], hk⟩
   · subst hbase
     simp only [evalBase, JOut.val.injEq, JVal.obj.injEq] at hbv; subst hbv
-    exact ⟨R.entry, by simp [refBase], hrel.2.2⟩
+    exact ⟨R.entry, by simp [refBase], hrel.2.2.1⟩
 
 theorem call_ok (hG : CallRel G R) (p : Nat) (name : Bytes) (allData : Bool) (data : Option Expr) (params : ParamList)
     (ihp : ParamsOk F G R ae params) : CmdOk F G R ae buf (.call p name allData data params) := by
@@ -4020,8 +4024,8 @@ theorem call_ok (hG : CallRel G R) (p : Nat) (name : Bytes) (allData : Bool) (da
       obtain ⟨bs, jbs, hr, hjb, he⟩ := hpp jenvF [] extra (KeepsAll.refl _ _) hep
       simp only [List.append_nil] at he; subst he
       obtain ⟨bd, hbd, hbj⟩ := base_ok R hrelF hbase hbv
-      obtain ⟨callee, outc, hlk, hc, rfl⟩ := hG name ⟨bs ++ bd, env.ij, env.globals⟩ (extra ++ bkvs) rv
-        (toJsKvs_append _ _ _ _ hjb hbj) hrv
+      obtain ⟨callee, outc, hlk, hc, rfl⟩ := hG name ⟨bs ++ bd, env.ij, env.globals⟩ (extra ++ bkvs) jenvF.ijData rv
+        (toJsKvs_append _ _ _ _ hjb hbj) hrelF.2.2.2.1 hrelF.2.2.2.2 hrv
       obtain ⟨s, hs', rfl⟩ := appendTo_ok hbF hx
       simp only [toStr?, Option.some.injEq] at hs'; subst hs'
       have hkeep : Keeps buf sc.n jenv (setLocal jenvF buf (.str (out ++ outc))) :=
@@ -4090,7 +4094,7 @@ end
 /-! ## the theorem -/
 
 section
-variable (F : Bytes → List Expr → JVal → JOut) (G : Bytes → JVal → JOut) (R : RefCtx) (ae : Autoescape) (buf : Bytes)
+variable (F : Bytes → List Expr → JVal → JOut) (G : Callee) (R : RefCtx) (ae : Autoescape) (buf : Bytes)
 
 /-- PARTIAL (C04, command level).  For a list of commands of the fragment — raw text, `{print}` with
     directives, `{let $x: e /}`, `{if}/{elseif}/{else}`, `{foreach}` / `{ifempty}`, `{for … in range(…)}`, `{switch}`,
@@ -4102,7 +4106,8 @@ variable (F : Bytes → List Expr → JVal → JOut) (G : Bytes → JVal → JOu
         directive functions) from a JavaScript environment related to the Soy environment `env`, in
         which `buf` holds `out`, the specification renders the commands in `env` to a text, and `buf`
         then holds `out` followed by exactly this text. -/
-theorem gen_correct_cmds_partial (hG : CallRel G R) (sk : List Bytes → List Bytes) (o : Options) (ho : o.messages = none)
+theorem gen_correct_cmds_partial (hG : CallRel G R) (sk : List Bytes → List Bytes) (o : Options) [GlobalsAre o]
+    (ho : o.messages = none)
     (cmds : CmdList) (sc : Scope) (r : JsStmts × Scope) (h : toCmds ae buf cmds sc = some r) :
     (∀ ind, Runs (At ind buf ae sc) (At ind buf ae r.2) (walkCmds sk o cmds) (renderStmts (isEs6 o) ind r.1)) ∧
     (∀ (fuel : Nat) (env : SEnv) (jenv jenv' : JEnv) (out : Bytes), ScOk sc → GoodBuf sc buf → EnvRel R.entry sc env jenv → BufIs buf jenv out →
@@ -4118,6 +4123,7 @@ theorem gen_correct_cmds_partial (hG : CallRel G R) (sk : List Bytes → List By
 theorem gen_correct_body_partial (hG : CallRel G R) (body : CmdList) (n : Nat) (r : JsStmts × Scope)
     (h : toCmds ae b!"output" body ⟨[[]], n⟩ = some r) (env : SEnv) (optData : List (Bytes × JVal))
     (ij : Option (List (Bytes × JVal))) (hent : R.entry = env.vars) (hdata : C04c.toJsKvs env.vars = some optData)
+    (hij : IjRel env.ij ij) (hgl : GlobRel env.globals)
     (jenv' : JEnv) (fuel : Nat)
     (hx : execStmts F G fuel r.1 ⟨optData, ij, [(b!"output", .str [])]⟩ = .ok jenv') :
     ∃ text, refCmds F R ae body env = .val text ∧ BufIs b!"output" jenv' text := by
@@ -4129,7 +4135,7 @@ theorem gen_correct_body_partial (hG : CallRel G R) (body : CmdList) (n : Nat) (
     cases hkv
   have hrel : EnvRel R.entry ⟨[[]], n⟩ env ⟨optData, ij, [(b!"output", .str [])]⟩ := by
     rw [hent]
-    exact C04c.envRel_params _ env _ (fun k => by simp [Scope.lookup, Scope.lookupIn, frameGet?]) hdata
+    exact C04c.envRel_params _ env _ (fun k => by simp [Scope.lookup, Scope.lookupIn, frameGet?]) hdata hij hgl
   obtain ⟨text, ht, hb', _⟩ := cmds_ok F G R ae hG body b!"output" fuel _ r env _ jenv' [] h hs
     (goodBuf_plain n _ (by decide)) hrel (by simp [BufIs]) hx
   exact ⟨text, ht, by simpa using hb'⟩
@@ -4208,7 +4214,7 @@ def EscapeHtmlIs (F : Bytes → List Expr → JVal → JOut) : Prop :=
     | none => .unspec
 
 section
-variable (F : Bytes → List Expr → JVal → JOut) (G : Bytes → JVal → JOut) (ae : Autoescape) (hesc : EscapeHtmlIs F)
+variable (F : Bytes → List Expr → JVal → JOut) (G : Callee) (ae : Autoescape) (hesc : EscapeHtmlIs F)
 variable (reg : Registry.Reg) (hasBundle : Bool) (entry : Spec.Eval.Binds)
 variable (call call' : Registry.Tmpl → Spec.Eval.CallEnv → Out Bytes)
 -- the reference's `call` and the specification's: the latter renders what the former does
@@ -4556,7 +4562,7 @@ end
 end
 
 section
-variable (F : Bytes → List Expr → JVal → JOut) (G : Bytes → JVal → JOut) (R : RefCtx) (ae : Autoescape)
+variable (F : Bytes → List Expr → JVal → JOut) (G : Callee) (R : RefCtx) (ae : Autoescape)
 
 /-- against Spec/Eval.renderCmds itself: directive-free prints, soy.$$escapeHtml read as htmlEscape -/
 theorem gen_correct_cmds_spec (hesc : EscapeHtmlIs F) (buf : Bytes)
@@ -4573,7 +4579,23 @@ theorem gen_correct_cmds_spec (hesc : EscapeHtmlIs F) (buf : Bytes)
 
 end
 
+end Dev
+
 /-! ## non-vacuity -/
+
+section Examples
+open SoyVerif.Spec.Eval (Val Out)
+
+/-- the examples are without globals (those with: the last ones) -/
+def exGlobals : Globals := ⟨[]⟩
+local instance : Globals := exGlobals
+local instance : GlobalsAre ({} : Options) := ⟨rfl⟩
+
+theorem exGlobRel (gs : Spec.Eval.Binds) : GlobRel gs := fun _ _ _ h => by
+  have : (Globals.tbl : List (Bytes × Value)) = [] := rfl
+  rw [this] at h
+  simp [assocGet?] at h
+
 
 /-- `{let $x: $a + 1 /}{if $x > 2}big {let $x: '<' /}{$x}{else}small{/if}{$x |truncate:3}` -/
 def sampleCmds : CmdList :=
@@ -4592,12 +4614,12 @@ def sampleF (name : Bytes) (_ : List Expr) (jv : JVal) : JOut :=
   | none => .unspec
 
 /-- no other template to call -/
-def noCall (_ : Bytes) (_ : JVal) : JOut := .unspec
+def noCall : Callee := fun _ _ _ => .unspec
 /-- a reference context without templates, for the entry data `e` -/
 def noRefOn (e : Spec.Eval.Binds) : RefCtx := ⟨[], e, fun _ _ => .unspec⟩
 def noRef : RefCtx := noRefOn []
 
-theorem noCall_rel (R : RefCtx) : CallRel noCall R := fun _ _ _ _ _ h => by simp [noCall] at h
+theorem noCall_rel (R : RefCtx) : CallRel noCall R := fun _ _ _ _ _ _ _ _ h => by simp [noCall] at h
 
 theorem sampleF_escape : EscapeHtmlIs sampleF := by
   intro jv
@@ -4635,7 +4657,7 @@ example (a : Int) (ha : SoyVerif.Spec.JsSem.exact a = true) (jenv' : JEnv) (r : 
     ∃ text, refCmds sampleF (noRefOn (sampleEnv a).vars) .on sampleCmds (sampleEnv a) = .val text ∧
       BufIs b!"output" jenv' text :=
   gen_correct_body_partial sampleF noCall (noRefOn (sampleEnv a).vars) .on (noCall_rel _) sampleCmds 0 r h (sampleEnv a) _ none rfl
-    (by simp [sampleEnv, C04c.toJsKvs, C04c.toJsV, ha]) jenv' 10 hx
+    (by simp [sampleEnv, C04c.toJsKvs, C04c.toJsV, ha]) rfl (exGlobRel _) jenv' 10 hx
 
 /-- … and these statements are what the generator model writes: from a state inside a template
     function (indentation 1, buffer `output`, autoescaping on, a fresh frame) -/
@@ -4807,7 +4829,7 @@ example : (toCmds .on b!"output" sampleCall ⟨[[]], 0⟩).map (fun r => printPi
     b!"  output += '[';\n  var param$1 = '';\n  param$1 += '\\u003C';\n  param$1 += soy.$$escapeHtml(opt_data.a);\n  param$1 += '\\u003E';\n  output += sem.c(soy.$$augmentMap(opt_data, {p: ((opt_data.a) + (1)), c: param$1}), opt_sb, opt_ijData);\n  output += ']';\n" := rfl
 
 /-- a callee oracle: the function `sem.c` returns `p:c:a` of its data object (`{$p}:{$c|noAutoescape}:{$a}`) -/
-def sampleG (name : Bytes) (d : JVal) : JOut :=
+def sampleG : Callee := fun name d _ =>
   if name == b!"sem.c" then
     match d with
     | .obj jd =>
@@ -4842,7 +4864,7 @@ theorem find_of_getD {b : Spec.Eval.Binds} {k : Bytes} {v : Val} (h : (Spec.Eval
 
 /-- the oracle pair satisfies the hypothesis of the call theorems -/
 theorem sampleG_rel (entry : Spec.Eval.Binds) : CallRel sampleG (sampleR entry) := by
-  intro name ce jd r hj hg
+  intro name ce jd jij r hj _ _ hg
   unfold sampleG at hg
   split at hg
   · rename_i hn
@@ -4881,7 +4903,7 @@ example (a : Int) (jenv' : JEnv) (r : JsStmts × Scope) (h : toCmds .on b!"outpu
     ∃ text, refCmds sampleF (sampleR (sampleEnv a).vars) .on sampleCall (sampleEnv a) = .val text ∧
       BufIs b!"output" jenv' text :=
   gen_correct_body_partial sampleF sampleG (sampleR (sampleEnv a).vars) .on (sampleG_rel _) sampleCall 0 r h (sampleEnv a) _ none rfl
-    (by simp [sampleEnv, C04c.toJsKvs, C04c.toJsV, ha]) jenv' 10 hx
+    (by simp [sampleEnv, C04c.toJsKvs, C04c.toJsV, ha]) rfl (exGlobRel _) jenv' 10 hx
 
 /-- the semantics of the call has teeth: were the params laid UNDER the data (`augmentMap` the other way round), a
     param could not override a key of `data="all"` -/
@@ -4912,6 +4934,43 @@ example : refCmds sampleF noRef .on sampleMsg (sampleEnv 5) = .val b!"Hi <b>5</b
 
 -- … and Spec/Eval.renderCmds (no bundle) renders the same
 example : Spec.Eval.renderCmds [] false true [] (fun _ _ => .unspec) none sampleMsg (sampleEnv 5) = .val b!"Hi <b>5</b>, 6!" := rfl
+
+end Examples
+
+section ExamplesGlobals
+open SoyVerif.Spec.Eval (Val Out)
+
+/-- one compile-time global: `G_I` = 42 -/
+local instance : Globals := ⟨[(b!"G_I", .int 42)]⟩
+
+/-- `{$ij.a + G_I}|{$ij.q?.z}` -/
+def sampleIj : CmdList :=
+  .cons (.print 0 (.bin .add 0 (.dataRef 0 b!"ij" (.cons (.key 0 false b!"a") .nil)) (.global 0 b!"G_I")) [])
+  (.cons (.rawText 0 b!"|")
+  (.cons (.print 0 (.dataRef 0 b!"ij" (.cons (.key 0 false b!"q") (.cons (.key 0 true b!"z") .nil))) []) .nil))
+
+-- the global is the literal the generator writes; `$ij` is the third parameter
+example : (toCmds .off b!"output" sampleIj ⟨[[]], 0⟩).map (fun r => printPieces (renderStmts false 1 r.1)) = some
+    b!"  output += ((opt_ijData.a) + (42));\n  output += '|';\n  output += ((opt_ijData.q == null) ? null : opt_ijData.q.z);\n" := by
+  decide +kernel
+
+example : (match walkCmds id { globals := [(b!"G_I", .int 42)] } sampleIj
+      { indent := 1, bufferName := b!"output", autoescape := .off, scope := ⟨[[]], 0⟩ } with
+    | .ok (_, ps, _) => some (printPieces ps)
+    | .error _ => none) = (toCmds .off b!"output" sampleIj ⟨[[]], 0⟩).map (fun r => printPieces (renderStmts false 1 r.1)) := by
+  decide +kernel
+
+example : (match toCmds .off b!"output" sampleIj ⟨[[]], 0⟩ with
+    | some r => (match execStmts sampleF noCall 10 r.1 ⟨[], some [(b!"a", .num 1), (b!"q", .obj [(b!"z", .num 9)])], [(b!"output", .str [])]⟩ with
+      | .ok e => (e.locals.find? (·.1 == b!"output")).map (·.2)
+      | _ => none)
+    | none => none) = some (.str b!"43|9") := rfl
+
+example : refCmds sampleF noRef .off sampleIj
+    { vars := [], loops := [], ij := some [(b!"a", .int 1), (b!"q", .map [(b!"z", .int 9)])], globals := [(b!"G_I", .int 42)] } =
+    .val b!"43|9" := rfl
+
+end ExamplesGlobals
 
 /-! ## what is proved, and what remains outside
 
@@ -4971,7 +5030,7 @@ example : Spec.Eval.renderCmds [] false true [] (fun _ _ => .unspec) none sample
 
   OUTSIDE (no theorem at the command level): `range` with a computed step, `{call}` to a `{deltemplate}` (`{delcall}`),
   the converse against Spec/Eval.render where the JavaScript THROWS (Props/C04f `gen_complete_registry_spec_partial`, hypothesis
-  `hthrow`), `{msg}` with a message bundle (translated parts) or with `{plural}`, `{css}`, `{log}`, `{debugger}`, `$ij`, globals, print directives with
+  `hthrow`), `{msg}` with a message bundle (translated parts) or with `{plural}`, `{css}`, `{log}`, `{debugger}`, `$ij` in a function called without injected data, globals that are floats / lists / maps, print directives with
   non-literal arguments, and
   the file level above the functions (namespace declarations, goog.provide / ES6 imports — covered for SHAPE by C14, not for
   meaning; the functions themselves: Props/C04f). -/
